@@ -173,6 +173,7 @@ def build() -> Check:
             "address longer than 2 octets. interleaved: 2-3 reader instances (any configurations) alive at once, each fed its own clean stream with "
             "the read() calls alternating - each must deliver exactly its own frames; non-trivial = every stream is split into >1 call. "
             "Distinct = distinct case hash."
+            ' interleaved also builds a bystander reader with constructor parameters found by introspection (none on the unchanged tree).'
         ),
         assumptions=[
             "The wall clock is replaced by a virtual clock; drawn gaps of 0 s .. 1 day pass between read() calls - delivery must not depend on timing.",
